@@ -5,4 +5,9 @@ PROPERTIES = {
                              "float(str)/int(str) are uninterpreted partial functions shared by both sides of every law (str2float/str2int)",
                              "str() of a value of the universe never raises"],
                 explanation="every coerce_output / coerce_input / parse_literal of the five specification scalars against the scalar laws; idempotence and literal=variable lemmas"),
+    'C04': dict(modules=['contracts.c04'],
+                assumptions=["custom scalar coerce_input and directive hooks are opaque user code (uninterpreted ScIn_*/Dir_*/EnumHook_*), shared by code summaries and the oracle",
+                             "a directive hook chain never raises an *empty* MultipleException",
+                             "asyncio.gather returns results positionally"],
+                explanation="input coercers against the CoerceInput oracle (specs/inputs.py), relative to the behaviour each closure denotes"),
 }
